@@ -7,7 +7,7 @@
      conv_group      = the entries of one output element, in loop order (kernel positions whose x
                        coordinate lies outside the image are absent: zero padding)
      pool_window     = the in-image positions of one pooling window, in scan order *)
-From Coq Require Import List Arith Lia Permutation Bool.
+From Coq Require Import List Arith Lia Permutation Bool Sorted ZArith.
 From PV Require Import Tensor.Kernels Tensor.Index Tensor.KernelProofs Tensor.ProofsBilinear.
 Import ListNotations.
 
@@ -157,19 +157,7 @@ Print Assumptions C02_conv2d_cell.
 
 (* and every y address is such an element *)
 Theorem C02_conv2d_cells_cover :
-  forall (sx sw sy : tshape) (xh xw xc wh ww yh yw yc B Vx Vw Vy : nat),
-    tget sx 0 = xh ->
-    tget sx 1 = xw ->
-    tget sx 2 = xc ->
-    tget sw 0 = wh ->
-    tget sw 1 = ww ->
-    tget sy 0 = yh ->
-    tget sy 1 = yw ->
-    tget sy 2 = yc ->
-    tbatch sy = B ->
-    tvolume sx = Vx ->
-    tvolume sw = Vw ->
-    tvolume sy = Vy ->
+  forall yh yw yc B Vy : nat,
     Vy = yh * yw * yc ->
     forall d : nat,
     0 < yh ->
@@ -220,26 +208,7 @@ Print Assumptions C02_conv2d_value.
 
 (* shape rule of shape_ops::conv2d: every dilated window lies inside the padded image (so the signed coordinate of the C++ is < x_h + 2 p0) *)
 Theorem C02_conv2d_window_fits :
-  forall (sx sw sy : tshape) (xh xw xc wh ww yh yw yc B Vx Vw Vy p0 s0 d0 : nat),
-    tget sx 0 = xh ->
-    tget sx 1 = xw ->
-    tget sx 2 = xc ->
-    tget sw 0 = wh ->
-    tget sw 1 = ww ->
-    tget sy 0 = yh ->
-    tget sy 1 = yw ->
-    tget sy 2 = yc ->
-    tbatch sy = B ->
-    tvolume sx = Vx ->
-    tvolume sw = Vw ->
-    tvolume sy = Vy ->
-    Vy = yh * yw * yc ->
-    Vx = xh * xw * xc ->
-    Vw = wh * ww * xc * yc ->
-    0 < wh ->
-    0 < ww ->
-    tbatch sx = 1 \/ tbatch sx = B ->
-    tbatch sw = 1 \/ tbatch sw = B ->
+  forall xh wh yh p0 s0 d0 : nat,
     0 < s0 ->
     (wh - 1) * d0 + 1 <= xh + 2 * p0 ->
     yh = (xh + 2 * p0 - ((wh - 1) * d0 + 1)) / s0 + 1 ->
@@ -249,26 +218,7 @@ Print Assumptions C02_conv2d_window_fits.
 
 (* ... and the output height is the largest with that property *)
 Theorem C02_conv2d_height_maximal :
-  forall (sx sw sy : tshape) (xh xw xc wh ww yh yw yc B Vx Vw Vy p0 s0 d0 : nat),
-    tget sx 0 = xh ->
-    tget sx 1 = xw ->
-    tget sx 2 = xc ->
-    tget sw 0 = wh ->
-    tget sw 1 = ww ->
-    tget sy 0 = yh ->
-    tget sy 1 = yw ->
-    tget sy 2 = yc ->
-    tbatch sy = B ->
-    tvolume sx = Vx ->
-    tvolume sw = Vw ->
-    tvolume sy = Vy ->
-    Vy = yh * yw * yc ->
-    Vx = xh * xw * xc ->
-    Vw = wh * ww * xc * yc ->
-    0 < wh ->
-    0 < ww ->
-    tbatch sx = 1 \/ tbatch sx = B ->
-    tbatch sw = 1 \/ tbatch sw = B ->
+  forall xh wh yh p0 s0 d0 : nat,
     0 < s0 ->
     (wh - 1) * d0 + 1 <= xh + 2 * p0 ->
     yh = (xh + 2 * p0 - ((wh - 1) * d0 + 1)) / s0 + 1 -> xh + 2 * p0 < yh * s0 + (wh - 1) * d0 + 1.
@@ -309,6 +259,13 @@ Theorem C02_pool_window_In :
 Proof. exact pool_window_In. Qed.
 Print Assumptions C02_pool_window_In.
 
+(* the scan is column-major: strictly increasing address *)
+Theorem C02_pool_window_sorted :
+  forall xh xw w0 w1 p0 p1 s0 s1 r y_x y_y : nat,
+    StronglySorted lt (pool_window xh xw w0 w1 p0 p1 s0 s1 r y_x y_y).
+Proof. exact pool_window_sorted. Qed.
+Print Assumptions C02_pool_window_sorted.
+
 (* a window has a candidate iff one of its positions is inside the image *)
 Theorem C02_pool2d_window_nonempty :
   forall xh xw w0 w1 p0 p1 s0 s1 r y_x y_y : nat,
@@ -323,17 +280,34 @@ Print Assumptions C02_pool2d_window_nonempty.
 
 (* a window entirely inside the padding (possible when padding >= window, accepted by shape_ops::pool2d) has NO candidate: the C++ then stores numeric_limits<float>::lowest() *)
 Theorem C02_pool2d_window_empty :
-  forall (sx sy : tshape) (xh xw yh yw R w0 w1 p0 p1 s0 s1 : nat),
-    tget sx 0 = xh ->
-    tget sx 1 = xw ->
-    tget sy 0 = yh ->
-    tget sy 1 = yw ->
-    tsize sx = xh * xw * R ->
-    0 < xh ->
-    0 < xw ->
-    forall r y_x y_y : nat, y_y * s0 + w0 <= p0 -> pool_window xh xw w0 w1 p0 p1 s0 s1 r y_x y_y = [].
+  forall xh xw w0 w1 p0 p1 s0 s1 r y_x y_y : nat,
+    y_y * s0 + w0 <= p0 -> pool_window xh xw w0 w1 p0 p1 s0 s1 r y_x y_y = [].
 Proof. exact pool2d_window_empty. Qed.
 Print Assumptions C02_pool2d_window_empty.
+
+(* the int32 coordinate test of conv2d / max_pool2d (-padding + y*stride + w*dilation formed in uint32, cast to int32) agrees with the exact test of the model whenever padding <= 2^31, x_height < 2^31, x_height + padding <= 2^31 (t < x_height + 2 padding holds by C02_conv2d_window_fits) *)
+Theorem C02_signed_coordinate_exact :
+  forall p t xh : Z,
+    (0 <= p <= 2147483648)%Z ->
+    (0 <= xh < 2147483648)%Z ->
+    (xh + p <= 2147483648)%Z -> (0 <= t < xh + 2 * p)%Z -> cxx_in_image p t xh = ideal_in_image p t xh.
+Proof. exact signed_coordinate_exact. Qed.
+Print Assumptions C02_signed_coordinate_exact.
+
+(* the exact test is the one of Kernels.v *)
+Theorem C02_ideal_of_nat :
+  forall p t xh : nat,
+    ideal_in_image (Z.of_nat p) (Z.of_nat t) (Z.of_nat xh) = (p <=? t) && (t - p <? xh).
+Proof. exact ideal_of_nat. Qed.
+Print Assumptions C02_ideal_of_nat.
+
+(* REFUTED beyond that range: for padding >= 2^31 the C++ test wraps around and accepts a position far outside the image. Replayed on the real code: conv2d(x = {2} [10,7], w = {1} [3], padding0 = stride0 = 4294967295) returns [21, 30, 0] instead of [0, 30, 0]; max_pool2d(x, window 1, padding0 = stride0 = 4294967295) returns [7, 10, lowest] instead of [lowest, 10, lowest] *)
+Theorem C02_signed_coordinate_refuted_ex :
+  exists p t xh : Z,
+      (0 <= p < 4294967296)%Z /\
+      (0 < xh)%Z /\ (0 <= t < xh + 2 * p)%Z /\ cxx_in_image p t xh = true /\ ideal_in_image p t xh = false.
+Proof. exact signed_coordinate_refuted_ex. Qed.
+Print Assumptions C02_signed_coordinate_refuted_ex.
 
 (* ---- non-vacuity ---- *)
 (* matmul {2,2}x1 * {2,2}x2: cell (i=1,k=0) of sample 1 reads a[1],a[3] (shared) and b[4],b[5] *)
